@@ -381,4 +381,55 @@ def stopFuel (R : Res) : Nat :=
   | .locked3 _ => 3
   | .done _ => 0
 
+/-! ## The program family of the correspondence run
+
+Every resource runs the same kind of program on globals 0 = `cnt`, 1 = `pa`, 2 = `pb` (shared),
+3 = `lc` (own), 4 = `rc` (own, RETAIN):
+
+    IF fm = 1 THEN x := 1 / zero; END_IF;
+    cnt := cnt + inc;  pa := pa + 1;
+    IF fm = 2 THEN x := 1 / zero; END_IF;
+    pb := pb + 1;  lc := lc + 1;  rc := rc + 1;
+
+where `fm` is the input byte delivered by the I/O driver for this cycle. -/
+
+def counterCycle (inc : Nat → Int) (r : Nat) (st : Store) (inp : Int) (_t : Int) : Store × Bool :=
+  if inp = 1 then (st, false)
+  else
+    let st1 := (st.set 0 ((st 0).getD 0 + inc r)).set 1 ((st 1).getD 0 + 1)
+    if inp = 2 then (st1, false)
+    else (((st1.set 2 ((st 2).getD 0 + 1)).set 3 ((st 3).getD 0 + 1)).set 4 ((st 4).getD 0 + 1), true)
+
+/-- Initial globals of every resource: `cnt = c0`, `pa = pb = p0`, `lc = rc = 0`. -/
+def counterInit (c0 p0 : Int) : Store :=
+  fun n => if n = 0 then some c0 else if n = 1 ∨ n = 2 then some p0 else if n = 3 ∨ n = 4 then some 0 else none
+
+/-- `Runtime::restart(Warm)`: every global is re-initialised except the retained one. -/
+def counterRestart (c0 p0 : Int) (_r : Nat) (st : Store) : Option Store :=
+  some fun n => if n = 4 then st 4 else counterInit c0 p0 n
+
+def counterSys (n : Nat) (inc : Nat → Int) (input : Nat → Nat → Int) (cfg : Nat → Cfg)
+    (c0 p0 : Int) : Sys :=
+  { n := n, names := [0, 1, 2], cycle := counterCycle inc, input := input,
+    restart := counterRestart c0 p0, cfg := cfg,
+    initStore := fun _ => counterInit c0 p0,
+    initShared := fun m => if m < 3 then counterInit c0 p0 m else none }
+
+/-- What the `k`-th cycles of resource `r` for `k < m` add to `cnt`. -/
+def contrib (inc : Nat → Int) (input : Nat → Nat → Int) (r : Nat) : Nat → Int
+  | 0 => 0
+  | m + 1 => contrib inc input r m + (if input r m = 1 then 0 else inc r)
+
+def sumTo (f : Nat → Int) : Nat → Int
+  | 0 => 0
+  | n + 1 => sumTo f n + f n
+
+def Label.isRes (r : Nat) : Label → Bool
+  | .res q => q == r
+  | _ => false
+
+def Label.isSend (r : Nat) : Label → Bool
+  | .env (.send q _) => q == r
+  | _ => false
+
 end TrustVerif.C20
